@@ -105,7 +105,7 @@ def base_cov(parts, rule, spec_names):
 
 def trace_check(prop, tier, seed, sched, spec, cfg, *, level="model_checking", rule, assumptions,
                 serde=True, profile="dev", nshards=14, timeout=3000, deque=False, weight=None, extra_cov=None,
-                distinct_fn=None, second_spec=None, second_filter=None):
+                distinct_fn=None, second_spec=None, second_filter=None, extra_runs=()):
     t0 = time.time()
     events, cases, res = run_trace(prop, sched, spec, cfg, serde=serde, profile=profile, nshards=nshards,
                                    timeout=timeout, deque=deque, weight=weight)
@@ -122,6 +122,13 @@ def trace_check(prop, tier, seed, sched, spec, cfg, *, level="model_checking", r
         nviol += report_rejections(prop, res2["rejected"], sched)
         parts.append(([], cases2, res2))
         names.append(second_spec)
+    for tag, sched2, spec2, w2 in extra_runs:
+        # a further corpus recorded and validated against its own trace specification
+        ev3, cs3, res3 = run_trace(tag, sched2, spec2 + ".tla", spec2 + ".cfg", serde=serde, profile=profile, timeout=timeout, weight=w2)
+        nviol += report_rejections(prop, res3["rejected"], sched2)
+        parts.append((ev3, cs3, res3))
+        names.append(spec2)
+        events = events + ev3
     cov = base_cov(parts, rule, names)
     cov["events_recorded"] = len(events)
     if extra_cov:
@@ -348,7 +355,8 @@ def check_C05(tier, seed):
              "exhaustive_scope": "the abstract API machines are explored completely for the real buffer lengths 16 and 256 (fill lengths: all 0..137 for len 16; classes around 0, 1 and 2 blocks for len 256; blocks <= 3); the conformance side is a transition cover plus seeded random interleavings on all 20 generator types"}
     rc = trace_check("C05", tier, seed, S, "Trace_Stream.tla", "Trace_Stream.cfg", second_spec="Trace_Full",
                      second_filter=lambda evs: not any(ev.get("e") in ("jit_new", "timer") for ev in evs),
-                     rule="TLC explores ApiImpl (BlockRng / BlockRng64 / via-next, as in the code) exhaustively and checks the refinement to Stream (C05 as a spec) on every transition; its state graph is turned into a transition cover (every selected (index, half, op, n) edge) that is executed on the real types next to an identically seeded twin driven with native calls only; Trace_Stream validates every returned byte against Stream instantiated with the twin's words. distinct = distinct recorded events",
+                     extra_runs=[("C05-far", corpora.far_corpus(seed, tier), "Trace_Pair", None)],
+                     rule="far positions (past 2^8 and 2^16 blocks / words): a generator and its clone skip the same number of bytes, one through fill_bytes and one through native calls, the digests of the bytes and everything after must agree (Trace_Pair). TLC explores ApiImpl (BlockRng / BlockRng64 / via-next, as in the code) exhaustively and checks the refinement to Stream (C05 as a spec) on every transition; its state graph is turned into a transition cover (every selected (index, half, op, n) edge) that is executed on the real types next to an identically seeded twin driven with native calls only; Trace_Stream validates every returned byte against Stream instantiated with the twin's words. distinct = distinct recorded events",
                      assumptions=COMMON_ASSUME[:2] + ["the twin (same seed, native-width calls only) defines the native word stream, as in the property statement",
                                                      "rand_core's BlockRng/BlockRng64/impls are a dependency: modelled in ApiImpl and bound by conformance, not verified themselves"],
                      extra_cov=extra)
@@ -399,7 +407,8 @@ def check_C14(tier, seed):
     other = 0
     for tag, S, spec, w in (("C14-jit", corpora.c14_jitter_corpus(seed, tier), "Trace_Jitter", jit_weight),
                             ("C14-api", corpora.c14_api_corpus(seed, tier), "Trace_Stream", None),
-                            ("C14-alg", corpora.c14_alg_corpus(seed, tier), "Trace_Alg", None)):
+                            ("C14-alg", corpora.c14_alg_corpus(seed, tier), "Trace_Alg", None),
+                            ("C14-far", corpora.far_corpus(seed, tier), "Trace_Pair", None)):
         ev, cs, res = run_trace(tag, S, spec + ".tla", spec + ".cfg", weight=w)
         parts.append((ev, cs, res))
         pan = only_panics(res["rejected"])
@@ -432,7 +441,7 @@ def check_C14(tier, seed):
         parts.append((ev, cs, res))
         pan = only_panics(res["rejected"])
         nviol += report_rejections("C14", pan, S4)
-    cov = base_cov(parts, "overflow-checked dev build; every operation wrapped in catch_unwind; the total specification expects exactly one panic (set_rounds(0)); hostile corpora: JitterRng timers with deltas +-(2^31-1), -2^31, 2^31, 2^32+-1, 2^63, u64 wrap-around, strictly decreasing, ping-pong between values 2^31 apart, in next_*/fill_bytes/timer_stats and across all 400 probes of test_timer; all-0xFF / all-zero / high-bit seeds and extreme u64 seeds of all 19 seedable types with fill_bytes lengths 0..17, block size +-1 (and 100000 in thorough) interleaved with next_*; jump/long_jump on all-ones states. distinct = distinct recorded events",
+    cov = base_cov(parts, "overflow-checked dev build; every operation wrapped in catch_unwind; the total specification expects exactly one panic (set_rounds(0)); hostile corpora: JitterRng timers with deltas +-(2^31-1), -2^31, 2^31, 2^32+-1, 2^63, u64 wrap-around, strictly decreasing, ping-pong between values 2^31 apart, in next_*/fill_bytes/timer_stats and across all 400 probes of test_timer; all-0xFF / all-zero / high-bit seeds and extreme u64 seeds of all 19 seedable types with fill_bytes lengths 0..17, block size +-1 (and 100000 in thorough) interleaved with next_*; jump/long_jump on all-ones states; positions past 2^8 and 2^16 blocks / words of every type (skipped natively, only a digest recorded). distinct = distinct recorded events",
                    ["Trace_Jitter", "Trace_Stream", "Trace_Alg"])
     cov["panic_scan"] = {"seeds_per_kind_constructed_three_ways_and_driven": scanned, "panicking_seeds_found": len(S4.cases)}
     cov["panics_observed"] = sum(1 for e, _, _ in parts for x in e if "panic" in x)
@@ -544,6 +553,7 @@ def check_C16(tier, seed):
     neg = run_tlc_cfg("MC_JitterApi.tla", JA_CFG % ("Spec", 3, "TRUE"), wd, "ja_neg", workers=2)
     if "is violated" not in neg["out"]:
         raise ToolError("negative control failed: the clone-copies-flag mutation of JitterApi was not detected")
+    apa = apalache_jitterapi(wd) if tier != "quick" else None
     gen = run_tlc_cfg("MC_JitterApi.tla", JA_CFG % ("MCSpec", 3, "FALSE"), wd, "ja_gen", workers=1)
     edges = parse_j_edges(gen["out"])
     if not edges:
@@ -581,8 +591,40 @@ def check_C16(tier, seed):
                                              "invariants": ["TypeOK", "AtMostOnce", "PendingIsHighHalfOfOwnValue", "FreshOrPendingHalf"],
                                              "negative_control": "CloneCopiesFlag=TRUE violates PendingIsHighHalfOfOwnValue"},
                                 "cover": {"projected_nodes": len(g), "projected_edges": sum(len(v) for v in g.values()), "walks": len(walks)},
+                                **({"inductive_invariant": apa} if apa else {}),
                                 "exhaustive": True, "exhaustive_scope": "abstract hand-out machine with <=3 instances and <=4 (quick) / 6 (thorough) collections"})
     return rc
+
+
+def apalache_jitterapi(wd):
+    """C16 for an unbounded number of collections: the three obligations of the inductive invariant of
+    apalache/APA_JitterApi.tla, and its negative control, run in parallel.  Model level: any failure is a tool error."""
+    import concurrent.futures as cf, shutil
+    src = os.path.join(vlib.SPEC, "apalache", "APA_JitterApi.tla")
+    d = os.path.join(wd, "apa")
+    shutil.rmtree(d, ignore_errors=True)
+    os.makedirs(d)
+    for f in (src, os.path.join(vlib.SPEC, "JitterApi.tla")):     # apalache resolves EXTENDS in the module's directory
+        shutil.copy(f, d)
+    mod = os.path.join(d, "APA_JitterApi.tla")
+    jobs = {"init":  ["--cinit=CInit", "--init=Init", "--next=NextB", "--inv=IndInv", "--length=0"],
+            "step":  ["--cinit=CInit", "--init=IndInit", "--next=NextB", "--inv=IndInv", "--length=1"],
+            "goal":  ["--cinit=CInit", "--init=IndInit", "--next=NextB", "--inv=Goal", "--length=0"],
+            "neg":   ["--cinit=CInitNeg", "--init=IndInit", "--next=NextB", "--inv=IndInv", "--length=1"]}
+    with cf.ThreadPoolExecutor(4) as ex:
+        futs = {k: ex.submit(vlib.run_apalache, mod, a, os.path.join(d, "out-" + k)) for k, a in jobs.items()}
+        res = {k: f.result() for k, f in futs.items()}
+    for k in ("init", "step", "goal"):
+        if res[k]["outcome"] != "NoError":
+            raise ToolError("Apalache obligation %s of APA_JitterApi failed (model level):\n%s" % (k, res[k]["out"][-2000:]))
+    if res["neg"]["outcome"] != "Error":
+        raise ToolError("Apalache negative control (CloneCopiesFlag) was not refuted:\n" + res["neg"]["out"][-2000:])
+    shutil.rmtree(d, ignore_errors=True)
+    return {"tool": "apalache-mc 0.58 (symbolic, SMT)", "module": "spec/apalache/APA_JitterApi.tla",
+            "obligations": {"Init => IndInv": "NoError", "IndInv /\\ NextB => IndInv'": "NoError", "IndInv => AtMostOnce /\\ PendingIsHighHalfOfOwnValue": "NoError"},
+            "scope": "3 instances, every fill length 0..47, token numbers and the number of collections arbitrary integers, |handed| <= 10 in the induction hypothesis",
+            "negative_control": "CloneCopiesFlag=TRUE: inductive step refuted",
+            "wall_s": round(max(r["wall"] for r in res.values()), 1)}
 
 
 # ---------------------------------------------------------------- C15
@@ -603,9 +645,12 @@ def check_C15(tier, seed):
     res = vlib.extract_tuples(r["out"], "RESULT")
     if not res:
         raise ToolError("ALG_Pool produced no RESULT:\n" + r["out"][-3000:])
-    items = re.findall(r'<<"(lp|lt|st)", "([a-z-]+)", (\d+), <<(\d+), (\d+), (\d+), (\d+)>>, (\d+)>>', res[-1])
+    items = re.findall(r'<<"(lp|lt|st|lv|tv|nx)", "([a-z-]+)", (\d+), <<(\d+), (\d+), (\d+), (\d+)>>, (\d+)>>', res[-1])
     rot = int(re.search(r'(\d+)\s*>>\s*$', res[-1]).group(1))
-    names = {"lp": "pool -> lfsr(pool, fixed time)", "lt": "time -> lfsr(fixed pool, time)", "st": "pool -> stir(pool)"}
+    names = {"lp": "pool -> lfsr(pool, fixed time)", "lt": "time -> lfsr(fixed pool, time)", "st": "pool -> stir(pool)",
+             "lv": "pool -> pool after the variable-round fold step (fixed readings)", "tv": "time -> pool after the variable-round fold step (fixed pool)",
+             "nx": "pool -> next_u64 output of one whole collection (fixed readings)"}
+    R1, R2 = corpora.C15_R1, corpora.C15_R2
     nviol, undecided, ranks = 0, [], {}
     C, P0 = 0x0123456789ABCDEF, 0xDEADBEEF0BADF00D
     for kind, status, rank, k0, k1, k2, k3, ntr in items:
@@ -615,7 +660,7 @@ def check_C15(tier, seed):
         if status == "not-affine":
             # rank arguments do not apply: look for a concrete collision on the real code instead
             col = None
-            if kind in ("st", "lp"):
+            if kind in ("st", "lp", "lv"):
                 cs, ct = os.path.join(wd, "col.ndjson"), os.path.join(wd, "colt.ndjson")
                 vlib.write_ndjson(cs, [{"op": "reset"}, {"op": "timer", "t": 1, "readings": [vlib.u64(C)], "cont": [vlib.u64(0)]}, {"op": "jit_new", "g": 1, "t": 1},
                                        {"op": "collide", "g": 1, "map": kind, "budget": 1 << 16 if tier == "quick" else 1 << 20}])
@@ -628,7 +673,7 @@ def check_C15(tier, seed):
                 for w, v in ((0, col[0]), (1, col[1])):
                     ops += [{"op": "set_pool", "g": 1, "pool": vlib.u64(v)}, {"op": "stir" if kind == "st" else "timer_stats", "g": 1, "tag": ["confirm", kind, w]}]
                     if kind != "st":
-                        ops[-1]["var"] = False
+                        ops[-1]["var"] = (kind == "lv")
                 cs, ct = os.path.join(wd, "c2.ndjson"), os.path.join(wd, "ct2.ndjson")
                 vlib.write_ndjson(cs, [{"op": "reset"}] + ops)
                 vlib.drive(binp, cs, ct)
@@ -647,15 +692,18 @@ def check_C15(tier, seed):
         if int(rank) < 64:
             # certificate: kernel vector k with f(k) = f(0); replay the collision on the real code
             k = vlib.from_limbs([int(k0), int(k1), int(k2), int(k3)])
-            ops = [{"op": "timer", "t": 1, "readings": [vlib.u64(x) for x in ([C, C + 1] * 2 if kind != "lt" else [0, 1, k, k + 1])], "cont": [vlib.u64(1)]},
+            rd = {"st": [], "lp": [C, C + 1] * 2, "lt": [0, 1, k, k + 1], "lv": [C, R1, R2, C + 1] * 2, "tv": [0, R1, R2, 1, k, R1, R2, k + 1], "nx": S.nx_readings}[kind]
+            ops = [{"op": "timer", "t": 1, "readings": [vlib.u64(x) for x in rd], "cont": [vlib.u64(1)]},
                    {"op": "jit_new", "g": 1, "t": 1}]
             for w, v in ((0, 0), (1, k)):
                 if kind == "st":
                     ops += [{"op": "set_pool", "g": 1, "pool": vlib.u64(v)}, {"op": "stir", "g": 1, "tag": ["confirm", kind, w]}]
-                elif kind == "lp":
-                    ops += [{"op": "set_pool", "g": 1, "pool": vlib.u64(v)}, {"op": "timer_stats", "g": 1, "var": False, "tag": ["confirm", kind, w]}]
+                elif kind == "nx":
+                    ops += [{"op": "seek", "g": 1, "pos": 0}, {"op": "set_pool", "g": 1, "pool": vlib.u64(v)}, {"op": "next_u64", "g": 1, "tag": ["confirm", kind, w]}]
+                elif kind in ("lp", "lv"):
+                    ops += [{"op": "set_pool", "g": 1, "pool": vlib.u64(v)}, {"op": "timer_stats", "g": 1, "var": kind == "lv", "tag": ["confirm", kind, w]}]
                 else:
-                    ops += [{"op": "set_pool", "g": 1, "pool": vlib.u64(P0)}, {"op": "timer_stats", "g": 1, "var": False, "tag": ["confirm", kind, w]}]
+                    ops += [{"op": "set_pool", "g": 1, "pool": vlib.u64(P0)}, {"op": "timer_stats", "g": 1, "var": kind == "tv", "tag": ["confirm", kind, w]}]
             cs, ct = os.path.join(wd, "c.ndjson"), os.path.join(wd, "ct.ndjson")
             vlib.write_ndjson(cs, [{"op": "reset"}] + ops)
             vlib.drive(binp, cs, ct)
@@ -996,7 +1044,7 @@ def check_C18(tier, seed):
     t0 = time.time()
     configs = CONFIGS_ALL[:3] if tier == "quick" else CONFIGS_ALL
     corp = corpora.c18_corpora(seed, tier)
-    specs = {"alg": ("Trace_Alg", step_weight), "api": ("Trace_Stream", None), "jit": ("Trace_Jitter", jit_weight)}
+    specs = {"alg": ("Trace_Alg", step_weight), "api": ("Trace_Stream", None), "jit": ("Trace_Jitter", jit_weight), "far": ("Trace_Pair", None)}
     wd = vlib.workdir("run-C18")
     bins, cfginfo = {}, {}
     for prof, serde in configs:
@@ -1058,7 +1106,7 @@ def check_C18(tier, seed):
             print("VIOLATION property=C18 replay=%s" % path)
             print("  configuration %s differs from the reference at event %d of corpus %s (case %r): %s" % (cfgname, at, name, label, "; ".join(m[:400] for m in pr["mismatch"][:1])))
             nviol += 1
-    cov = base_cov(parts, "a fixed corpus (algorithm traces of all generators incl. seeding, mixed next_u32/next_u64/fill_bytes histories of all 19 seedable types, JitterRng over scripted timers incl. deltas around 2^31/2^32 and test_timer) is executed by the harness built in every configuration; the trace of the reference configuration (dev: opt 0, overflow checks, debug assertions, serde) is validated by the trace specifications, and Trace_Same requires every other configuration's trace to be the same behaviour event by event (values, Ok/Err, panics, readings consumed). distinct = distinct recorded events", ["Trace_Alg", "Trace_Stream", "Trace_Jitter", "Trace_Same"])
+    cov = base_cov(parts, "a fixed corpus (algorithm traces of all generators incl. seeding, mixed next_u32/next_u64/fill_bytes histories of all 19 seedable types, positions past 2^8 and 2^16 blocks / words reached by native skipping (digest recorded), JitterRng over scripted timers incl. deltas around 2^31/2^32 and test_timer) is executed by the harness built in every configuration; the trace of the reference configuration (dev: opt 0, overflow checks, debug assertions, serde) is validated by the trace specifications, and Trace_Same requires every other configuration's trace to be the same behaviour event by event (values, Ok/Err, panics, readings consumed). distinct = distinct recorded events", ["Trace_Alg", "Trace_Stream", "Trace_Jitter", "Trace_Same"])
     cov["configurations"] = cfginfo
     cov["events_compared_across_configurations"] = compared
     cov["programs"] = len(configs)
